@@ -1551,17 +1551,22 @@ func (c *Ctx) checkAvatarLinkOnlyWithDesc() {
 	link := c.E().storeIface("FilePersistenceInterface", "LinkAttachments")
 	topicsUpdate := c.E().storeIface("TopicsPersistenceInterface", "Update")
 	n := 0
-	for _, fn := range c.funcsCalling(link, "server") {
-		if !isPtrToNamedRecv(fn, "Topic") || len(core.CallsTo(fn, topicsUpdate)) == 0 {
+	for _, lfn := range c.funcsCalling(link, "server") {
+		// the handler: the Topic method that (itself, in a function literal or in a helper only it
+		// calls) both links and updates the topic
+		fn := c.climbUntil(lfn, func(R *ssa.Function) bool {
+			return isPtrToNamedRecv(R, "Topic") && len(c.regionCallsTo(R, topicsUpdate)) > 0
+		})
+		if !isPtrToNamedRecv(fn, "Topic") || len(c.regionCallsTo(fn, topicsUpdate)) == 0 {
 			continue
 		}
 		// the update map handed to Topics.Update
 		var maps []ssa.Value
-		for _, u := range core.CallsTo(fn, topicsUpdate) {
+		for _, u := range c.regionCallsTo(fn, topicsUpdate) {
 			args := core.CallArgs(u.Common())
 			maps = append(maps, core.Strip(args[len(args)-1]))
 		}
-		for _, l := range core.CallsTo(fn, link) {
+		for _, l := range core.CallsTo(lfn, link) {
 			n++
 			r.Func(fk(fn))
 			g := core.Guard{Name: "len(update)>0", Match: func(a core.CondAtom) (bool, bool) {
@@ -1591,7 +1596,7 @@ func (c *Ctx) checkAvatarLinkOnlyWithDesc() {
 				}
 				return false, false
 			}}
-			ok, cnt := core.GuardedBy(fn, l.(ssa.Instruction), g)
+			ok, cnt := core.GuardedBy(lfn, l.(ssa.Instruction), g)
 			r.Check(ok && cnt[0] > 0, "C16.5d-avatar-link-with-description", fk(fn)+": Files.LinkAttachments only when the description update is not empty", c.pos(l), "",
 				"a request that changes nothing in the topic's description still replaces the topic's attachment links: the real avatar is unlinked and later garbage-collected")
 		}
